@@ -71,7 +71,7 @@ def ws : Bytes → Cur → Bytes × Cur
     else if b = 10 then ws r (c.adv 1 1).newline
     else if b = 13 then
       match r with
-      | 10 :: r' => ws r' ((c.adv 1 1).newline.adv 1 1)   -- line start recorded before the LF
+      | 10 :: r' => ws r' (c.adv 2 2).newline             -- CRLF is one terminator
       | r' => ws r' (c.adv 1 1).newline
     else if b = 0xEF then
       match r with
@@ -110,9 +110,16 @@ def describeNext : Bytes → Bytes
 def msgExpectedDigit (r : Bytes) : Bytes :=
   str "Invalid number, expected digit but got: " ++ describeNext r ++ [46]
 
+/-- the look-ahead restriction of IntValue / FloatValue -/
+def numFollowBad : Bytes → Bool
+  | [] => false
+  | b :: _ => b == 46 || isNameCont b
+
 /-- exponent part and final token of `readNumber`; `n` = bytes consumed so far -/
 def numExp (start : Cur) (rest0 : Bytes) (n : Nat) (r : Bytes) (isFloat : Bool) : Step :=
   let fin (n : Nat) (r : Bytes) (isFloat : Bool) : Step :=
+    -- a number must not be followed by a digit, a dot or the start of a name
+    if numFollowBad r then mkErr (start.adv n n) (msgExpectedDigit r) else
     .tok { kind := if isFloat then .float else .int, value := rest0.take n,
            start := start.endR, stop := start.endR + n, line := start.line,
            col := colOf start.endR start.ls } r (start.adv n n)
@@ -223,7 +230,7 @@ def readBlockLoop (q : Cur) : Bytes → Cur → Bytes → Step
       -- a run of three or more quotes closes the string with its last three
       let raw := (List.replicate (n - 3) 34 ++ acc).reverse
       .tok { kind := .blockString, value := blockStringValue raw, start := q.endR,
-             stop := c.endR + 3, line := c.line, col := colOf (q.endR + 3) c.ls }
+             stop := c.endR + 3, line := q.line, col := colOf q.endR q.ls }
            ((b :: tl).drop n) (c.adv n n)
     else if b < 32 ∧ b ≠ 9 ∧ b ≠ 10 ∧ b ≠ 13 then mkErr c (msgInvalidInString b)
     else if b = 92 then
